@@ -41,6 +41,7 @@ Record Solver := mkSolver {
 Section API.
 Variable K : Consts.
 Variable ident : bool.          (* IdentityPreconditioner instead of Ruiz *)
+Variable sparse_pc : bool.      (* the Ruiz preconditioner is the one of sparse/preconditioner.hpp ([sparse_quirk] of PrecondDense.v) *)
 Variable junk : F.              (* content of never-written scalar memory that the code may read *)
 Variable cp_bits : Z.           (* hook H2: significant bits kept at checkpoints; 0 = off *)
 
@@ -77,7 +78,7 @@ Definition setup (S : Settings) (n p m : nat) (B : Blocks) : res Solver :=
                  d_lb_idx := lbi; d_ub_idx := ubi; d_lb_scaling := vconst n 1; d_ub_scaling := vconst n 1;
                  d_lb_n := lbn; d_ub := ubv |} in
     let pc0 := precond_init ident d0 in
-    do '(pc, d) <- scale_data K pc0 d0 false (preconditioner_scale_cost S) (preconditioner_iter S) ;;
+    do '(pc, d) <- scale_data K sparse_pc pc0 d0 false (preconditioner_scale_cost S) (preconditioner_iter S) ;;
     do k <- kkt_init d (rho_init S) (delta_init S) junk ;;
     Ok {| sv_set := S; sv_data := d; sv_pc := pc; sv_kkt := k; sv_kkt_init_state := true; sv_setup_done := true;
           sv_refine := iterative_refinement_always_enabled S; sv_info := empty_info S; sv_out := zero_out n p m; sv_calls := 0 |}
@@ -103,7 +104,7 @@ Definition update (sv : Solver) (B : Blocks) (reuse : bool) : res Solver :=
   let d8 := match b_ub B with
             | Some l => let '(v, ix) := pack_ub (k_inf K) 0 l in (d7 <| d_ub := v |> <| d_ub_idx := ix |>)
             | None => d7 end in
-  do '(pc, d) <- scale_data K (sv_pc sv) d8 reuse (preconditioner_scale_cost S) (preconditioner_iter S) ;;
+  do '(pc, d) <- scale_data K sparse_pc (sv_pc sv) d8 reuse (preconditioner_scale_cost S) (preconditioner_iter S) ;;
   let oP := match b_P B with Some _ => true | None => false end in
   let oA := match b_A B with Some _ => true | None => false end in
   let oG := match b_G B with Some _ => true | None => false end in
